@@ -377,6 +377,13 @@ class CFG:
 
     def reaching_defs(self):
         """dict node id -> {var: frozenset(def node ids)} (in-state)."""
+        cached = getattr(self, "_rd_cache", None)
+        if cached is None:
+            cached = self._reaching_defs()
+            self._rd_cache = cached
+        return cached
+
+    def _reaching_defs(self):
         def transfer(node, state, label):
             ds = defs_of(node)
             if not ds:
